@@ -1473,12 +1473,24 @@ Proof.
   split; [vm_compute; reflexivity|]. split; [vm_compute; discriminate|vm_compute; reflexivity].
 Qed.
 
-(* a merge entry (reachable through ApplyBatch of the embedded API) is a put on the replica
-   and nothing on the primary *)
-Theorem merge_refuted :
-  let L := [mkW OpMerge 1 (bk 107) (bk 1)] in
-  log_ok 0 L = true /\ view L = [(bk 107, bk 1)] /\ primary_view L = [].
-Proof. split; [vm_compute; reflexivity|]. split; vm_compute; reflexivity. Qed.
+(* a merge entry (reachable through ApplyBatch of the embedded API) used to be a put on the
+   replica and nothing on the primary; since the EngineApplier ignores it like the primary does,
+   both sides compute the same data from the same entries *)
+Module BeforeMergeFix.
+  Definition view_apply_old (m : list (bytes * bytes)) (e : wentry) : list (bytes * bytes) :=
+    if w_op e =? OpDel then view_del (w_key e) m else view_set (w_key e) (w_val e) m.
+  Definition view_old (es : list wentry) := fold_left view_apply_old es [].
+  Theorem merge_refuted :
+    let L := [mkW OpMerge 1 (bk 107) (bk 1)] in
+    log_ok 0 L = true /\ view_old L = [(bk 107, bk 1)] /\ primary_view L = [].
+  Proof. split; [vm_compute; reflexivity|]. split; vm_compute; reflexivity. Qed.
+End BeforeMergeFix.
+
+Theorem merge_consistent : forall es, view es = primary_view es.
+Proof. reflexivity. Qed.
+
+Example merge_consistent_sat : view [mkW OpMerge 1 (bk 107) (bk 1); mkput 2 98 2] = [(bk 98, bk 2)].
+Proof. vm_compute. reflexivity. Qed.
 
 (* ---- the hypotheses of the positive theorems are satisfiable ---- *)
 Definition Lok : list wentry :=
